@@ -820,7 +820,15 @@ static void gen_expr(Node *node) {
       println("  and %%r9, %%rax");
       println("  or %%rdi, %%rax");
       store(node->ty);
+
+      // The value of the assignment is the value of the bitfield
+      // after the assignment, not the value of the right operand.
       println("  mov %%r8, %%rax");
+      println("  shl $%d, %%rax", 64 - mem->bit_width);
+      if (mem->ty->is_unsigned || mem->ty->kind == TY_BOOL)
+        println("  shr $%d, %%rax", 64 - mem->bit_width);
+      else
+        println("  sar $%d, %%rax", 64 - mem->bit_width);
       return;
     }
 
